@@ -3,6 +3,7 @@ package props
 import (
 	"context"
 	"fmt"
+	"reflect"
 	"sort"
 	"strings"
 	"time"
@@ -29,7 +30,7 @@ var c07 = core.Register(&core.Prop{
 	Shards: func(tier string) int { return pickTier(tier, 8, 16) },
 	Floors: func(c map[string]int64, tier string) []string {
 		var out []string
-		for _, k := range []string{"store_cases", "second_evaluation_cases", "assignments_checked", "log_entries_checked", "forbidden_target_cases", "binding_cases", "frame_checks", "frame_checks_general", "error_runs_frame_checked"} {
+		for _, k := range []string{"store_cases", "second_evaluation_cases", "assignments_checked", "log_entries_checked", "forbidden_target_cases", "binding_cases", "frame_checks", "frame_checks_general", "error_runs_frame_checked", "callee_not_a_function_cases", "calls_through_locals", "frame_checks_call_templates"} {
 			if c[k] == 0 {
 				out = append(out, "coverage floor: no "+k)
 			}
@@ -97,10 +98,21 @@ var c07Store = core.Mon(c07, "store-passing", func(w *core.W, c *StoreCase) {
 			}
 			return vs[len(vs)-1], nil
 		},
+		"rec2": func(vs ...interface{}) (interface{}, error) {
+			if len(vs) == 0 {
+				return nil, fmt.Errorf("rec2 needs an argument")
+			}
+			log = append(log, goToMV(append([]interface{}{"rec2"}, vs...)))
+			return vs[0], nil
+		},
 	}
 	model := &refEval{Store: map[string]MV{"x": mvInt(c.X), "y": mvInt(c.Y), "l": {K: "arr", A: []MV{mvInt(1), {K: "str", S: "e"}}}, "s": {K: "str", S: "str"}}}
 	for k, v := range c.Init {
-		data[k] = mvGo(v)
+		if v.K == "fn" {
+			data[k] = data[v.S]
+		} else {
+			data[k] = mvGo(v)
+		}
 		model.Store[k] = v
 	}
 	before := frameSnapshot(data)
@@ -122,6 +134,9 @@ var c07Store = core.Mon(c07, "store-passing", func(w *core.W, c *StoreCase) {
 		if strings.Contains(src, "=") || strings.Contains(src, "rec(") {
 			nontrivial = true
 		}
+		if strings.Contains(src, "$f(") || strings.Contains(src, "$g(") {
+			w.Count("calls_through_locals")
+		}
 		if pi == 1 {
 			w.Count("second_evaluation_cases")
 		}
@@ -138,6 +153,14 @@ var c07Store = core.Mon(c07, "store-passing", func(w *core.W, c *StoreCase) {
 		panicked, pv := core.Call(func() { v, rerr = r.Resolve(context.Background(), sc.Expression) })
 		if panicked {
 			w.Violation("store-passing", "C07/escaped-panic", c, mv.String(), fmt.Sprint(pv), src)
+			return
+		}
+		if merr == errNotFn {
+			w.Count("callee_not_a_function_cases")
+			if rerr == nil {
+				w.Violation("store-passing", "C07/callee-read-after-arguments", c, "an error: the callee is not a function when the call is reached", show(v),
+					"a callee stands left of its arguments and is read before they are evaluated: "+src)
+			}
 			return
 		}
 		if merr != nil {
@@ -225,6 +248,9 @@ func goToMV(v interface{}) MV {
 			out.A = append(out.A, goToMV(e))
 		}
 		return out
+	}
+	if v != nil && reflect.TypeOf(v).Kind() == reflect.Func {
+		return MV{K: "fn"}
 	}
 	return MV{K: "str", S: fmt.Sprintf("%T", v)}
 }
@@ -380,8 +406,11 @@ func runC07(w *core.W) {
 			}
 			c.Progs = append(c.Progs, ref.Print(t))
 		}
-		if r.Intn(4) == 0 {
+		switch r.Intn(6) {
+		case 0:
 			c.Init = map[string]MV{"$i": mvInt(int64(r.Intn(9))), "$p": {K: "arr", A: []MV{mvInt(7)}}}
+		case 1, 2:
+			c.Init = map[string]MV{"$f": {K: "fn", S: "rec"}, "$g": {K: "fn", S: "rec2"}}
 		}
 		c07Store(w, c)
 		if i%2503 == 0 {
@@ -391,7 +420,9 @@ func runC07(w *core.W) {
 	// classic shapes, exhaustively combined
 	shapes := []string{"$i = 1, $j = 2, $i + $j", "$i = $i + 1", "$i, $i = 5, $i", "[$i = 1, $i, $i = 2, $i]", "rec($i = 3), rec($i)", "[rec(1), rec(2), rec(3)]",
 		"rec($i = 1) + rec($i = $i + 1) + $i", "x ? ($i = 1) : ($j = 2)", "zz ? ($i = 1) : ($j = 2)", "($i = 2, $i) + ($i = 3, $i)", "$p = [$i = 4, $i + 1], $p", "$i = $j = $k = 9, [$i, $j, $k]",
-		"$k", "this.$i", "$i = x, $i + this.x", "rec(rec(1) + rec(2))", "[[rec(1)], [rec(2), [rec(3)]]]", "rec($i = 1, $i, $i = 2, $i)", "rec(rec(1), rec(2), rec(3))", "rec($j, $j = 5, $j)", "$q = ($p = [1]), $q", "$i = 1, x = 2", "$i = 1, rec($i), m.k = 2"}
+		"$k", "this.$i", "$i = x, $i + this.x", "rec(rec(1) + rec(2))", "[[rec(1)], [rec(2), [rec(3)]]]", "rec($i = 1, $i, $i = 2, $i)", "rec(rec(1), rec(2), rec(3))", "rec($j, $j = 5, $j)", "$q = ($p = [1]), $q", "$i = 1, x = 2", "$i = 1, rec($i), m.k = 2",
+		"$f = rec, $f(($f = rec2, 5), 9)", "$f = rec2, $f(($f = rec, 5), 9)", "$f(($f = rec2, 1), 2)", "$f = rec, $g = rec2, $f($g(1, 2), ($g = rec, $g(3, 4)))", "$f = rec, [$f(1, 2), ($f = rec2, 0), $f(1, 2)]",
+		"$g = rec2, $g(($g = 7, $i = 3), $g)", "$f = rec, $f($f = rec2, 1) + $f(5, 6)"}
 	for i, a := range shapes {
 		for j, b := range shapes {
 			if w.Mine(i*len(shapes) + j) {
@@ -451,6 +482,33 @@ func runC07(w *core.W) {
 		c07Frame(w, c)
 		if i%5003 == 0 {
 			w.Sample("frame", c.Quoted())
+		}
+	}
+	// every callable x every data name, handed over directly, repeatedly, through a local and spread: whatever a
+	// call or an operator does with a container or a number of the caller (convert it for a parameter, normalise
+	// it, truncate it, negate it), it does on a copy
+	names := append(append([]string{}, stdNames...), "m.k", "m.b", "m.name", "st.M")
+	callT := []string{"%f(%x)", "%f(%x, %x)", "%f(1, %x)", "%f(%x...)", "%f(1, %x...)", "%f(%x, %x, %x, %x)", "$v = %x, %f($v...)", "$v = %x, [%f($v), %f($v, $v, $v, $v), $v]", "%f([%x][0]...)"}
+	opT := []string{"~%x", "-%x", "+%x", "!%x", "%x + %x", "%x * 1", "%x % 2", "%x & %x", "%x | 1", "%x ^ %x", "[%x][0]", "%x ?? 1", "%x == %x", "%x < 1", "typeof %x", "%x ? %x : %x", "$v = %x, ~$v, -$v, $v", "[%x, %x]", "%x + ''"}
+	fd := StdData(w.RNG("frame-data"))
+	idx := 0
+	for _, f := range append(append([]string{}, stdFuncs...), safeBuiltins()...) {
+		for _, x := range names {
+			for _, t := range callT {
+				idx++
+				if w.Mine(idx) {
+					c07Frame(w, &EvalCase{Src: strings.ReplaceAll(strings.ReplaceAll(t, "%f", f), "%x", x), Data: fd, Gen: "frame-call"})
+					w.Count("frame_checks_call_templates")
+				}
+			}
+		}
+	}
+	for _, x := range names {
+		for _, t := range opT {
+			idx++
+			if w.Mine(idx) {
+				c07Frame(w, &EvalCase{Src: strings.ReplaceAll(t, "%x", x), Data: fd, Gen: "frame-op"})
+			}
 		}
 	}
 }
